@@ -250,6 +250,18 @@ def rule_TB3(rep, srcdir):
     rep.require(rid, nonnull == len(DOC_IDS), fn.file, fn.name, "accepted-identifier-count",
                 "dispatch_get_global_queue accepts %d distinct identifier constants but %d are documented" % (nonnull, len(DOC_IDS)),
                 sample={"accepted_constants": nonnull, "documented": len(DOC_IDS)})
+    # identifiers that agree with a documented QoS class only in their low 32 bits are undefined identifiers
+    aliased = []
+    for ident, cls in DOC_IDS:
+        if not ident.startswith("QOS_CLASS_"):
+            continue
+        outs = sccp.SCCP(prog, fn, {0: ("c", k[ident] | (1 << 32), 64), 1: ("c", 0, 64)}).run()
+        if {v for v, p in outs} != {("c", 0, 64)}:
+            aliased.append(ident)
+    rep.require(rid, not aliased, fn.file, fn.name, "identifier-truncated-to-32-bits",
+                "dispatch_get_global_queue(<%s> + 2^32, 0) returns a queue: the intptr_t identifier is truncated to 32 bits before it is classified, so "
+                "undefined identifiers that alias a QoS class in their low half are accepted instead of yielding NULL" % "/".join(aliased),
+                sample={"aliases_checked": len([1 for i, c in DOC_IDS if i.startswith("QOS_CLASS_")])})
     # the table itself
     ents = tbl["init"]
     pos = None
